@@ -933,7 +933,7 @@ class Unit:
                 optional = ln.startswith("//@insert?")
                 if optional:
                     ln = "//@insert" + ln[len("//@insert?"):]
-                m = re.match(r"//@insert\s+(before|after|inv|loop-end)\s+`(.*)`\s*$", ln)
+                m = re.match(r"//@insert\s+(before|after|inv|loop-end|loop-start)\s+`(.*)`\s*$", ln)
                 if not m:
                     m = re.match(r"//@insert\s+(tail|start|end)()\s*$", ln)
                 if not m:
@@ -1090,6 +1090,8 @@ class Unit:
                     if mode == "loop-end":
                         q = match_close(btoks, q)
                     off = btoks[q].start
+                    if mode == "loop-start":
+                        off = btoks[q].end   # right after the `{` that opens the loop body
                     new_body = new_body[:off] + marker + new_body[off:]
                 self.counts.add("ghost-insertions")
         # emit
